@@ -4,10 +4,6 @@ Plain-content identities of the text decoders (lemmas for Props/C20).
 import EzdxfVerif.Model.Text
 namespace EzdxfVerif.Text
 
-/-- plain content: no control characters and none of the characters that start MTEXT syntax -/
-def isPlain (c : Char) : Bool :=
-  decide (32 ≤ c.toNat) && c != '\\' && c != '{' && c != '}' && c != '%' && c != '^'
-
 theorem caretDecode_plain (s : Str) (h : ∀ c ∈ s, isPlain c = true) : caretDecode s = s := by
   induction s using caretDecode.induct with
   | case1 => rfl
@@ -42,8 +38,7 @@ theorem specialAt_plain (sp : Special) (c : Char) (r : Str) (hc : c ≠ '%') : s
 
 /-- tokens of plain content re-assemble to the content -/
 theorem scan_plain (sp : Special) (rest word para : Str) (h : ∀ c ∈ rest, isPlain c = true) :
-    ∃ ts, scan sp rest word = .ok ts ∧
-      plainOfTokens ts para = (if (para ++ word ++ rest).isEmpty then [] else [para ++ word ++ rest]) := by
+    ∃ ts, scan sp rest word = .ok ts ∧ plainOfTokens ts para = [para ++ word ++ rest] := by
   induction rest generalizing word para with
   | nil =>
     refine ⟨_, by rw [scan.eq_def], ?_⟩
@@ -83,15 +78,13 @@ theorem scan_plain (sp : Special) (rest word para : Str) (h : ∀ c ∈ rest, is
         simpa using hp
 
 /-- on plain content `plain_mtext` returns the content as one paragraph: it agrees with `fast_plain_mtext` -/
-theorem plain_identity (sp : Special) (s : Str) (h : ∀ c ∈ s, isPlain c = true) (hne : s ≠ []) :
+theorem plain_identity (sp : Special) (s : Str) (h : ∀ c ∈ s, isPlain c = true) :
     plainMText sp s = .ok [s] := by
   unfold plainMText parse
   rw [caretDecode_plain s h]
   obtain ⟨ts, hts, hp⟩ := scan_plain sp s [] [] h
   rw [hts]
   simp only [List.nil_append] at hp
-  have : s.isEmpty = false := by cases s <;> simp_all
-  simp [this] at hp
   show Except.ok (plainOfTokens ts []) = Except.ok [s]
   rw [hp]
 
